@@ -1,0 +1,49 @@
+//go:build verif
+
+package pruner
+
+import (
+	"context"
+	"sort"
+)
+
+// Verification-harness exports (build tag `verif` only; no effect on regular builds).
+
+// VerifInit prepares the service for deterministic stepping: it does what Start does (loads the
+// checkpoint, installs the service context) but does not spawn the ticker loop. Stop works as
+// usual afterwards.
+func (s *Service) VerifInit(ctx context.Context) error {
+	s.checkpointMu.Lock()
+	defer s.checkpointMu.Unlock()
+
+	if err := s.loadCheckpoint(ctx); err != nil {
+		return err
+	}
+	s.ctx, s.cancel = context.WithCancel(context.Background())
+	close(s.doneCh)
+	return nil
+}
+
+// VerifPrune runs one synchronous pruning cycle, exactly what the ticker loop runs.
+func (s *Service) VerifPrune(ctx context.Context) { s.prune(ctx) }
+
+// VerifCheckpoint returns a copy of the in-memory checkpoint (loaded=false before it was loaded).
+func (s *Service) VerifCheckpoint() (lastPruned uint64, failed []uint64, loaded bool) {
+	s.checkpointMu.Lock()
+	defer s.checkpointMu.Unlock()
+	if s.checkpoint == nil {
+		return 0, nil, false
+	}
+	for h := range s.checkpoint.FailedHeaders {
+		failed = append(failed, h)
+	}
+	sort.Slice(failed, func(i, j int) bool { return failed[i] < failed[j] })
+	return s.checkpoint.LastPrunedHeight, failed, true
+}
+
+// VerifSetMaxHeadersPerLoop sets the batch limit of a pruning cycle and returns the previous one.
+// Not synchronised: call only while no cycle is running.
+func VerifSetMaxHeadersPerLoop(n int) (prev int) {
+	prev, maxHeadersPerLoop = maxHeadersPerLoop, n
+	return prev
+}
